@@ -364,7 +364,11 @@ def np_same(before, e0, after, e1, outs, factor=1):
     if not np.all(np.isfinite(got)):
         return False, "non-finite entries"
     err = float(np.max(np.abs(ref - got))) if ref.size else 0.0
-    return err <= TOL * scale, f"max abs err {err:.3e}"
+    # float round-off of a sum whose terms cancel is bounded by eps * sum|terms| <= eps * prod of Frobenius norms
+    with np.errstate(over="ignore"):
+        P = float(np.prod([max(1e-300, float(np.linalg.norm(np.asarray(a)))) for _, a in before])) * 10.0 ** float(e0) * abs(factor)
+    allowed = TOL * scale + (1e-13 * P if np.isfinite(P) else 0.0)
+    return err <= allowed, f"max abs err {err:.3e} (allowed {allowed:.3e})"
 
 
 def robust_coq_cases(ctx, name, header, cases, shard):
@@ -465,6 +469,8 @@ def run_pass(ctx, col, netid, tn0, outs, name, args, explicit, tag=""):
 
 def value_key(desc):
     """call site + input class"""
+    if desc["pass"] == "compute_contracted_inds":
+        return "compute_contracted_inds:kept_labels"
     k = desc["pass"].split("[")[0] + ":value"
     if desc.get("_flip_repeated"):
         k += ":flip_on_repeated_label"
@@ -585,6 +591,26 @@ def integer_stream(ctx, col):
                 U, Ui = _unimodular(rng, tn.ind_size(b))
                 run_pass(ctx, col, netid, tn, outs, "insert_gauge",
                          {"U": U.tolist(), "Uinv": Ui.tolist(), "tid1": tid1, "tid2": tid2, "bond": b}, explicit)
+        # bookkeeping behind loop / pair simplification: which labels a group contraction keeps (vs group_summed of the model)
+        if not has_rep and nt >= 1:
+            tids = list(tn.tensor_map)
+            grp = rng.sample(tids, rng.randint(1, len(tids)))
+            try:
+                kept = list(tn.compute_contracted_inds(*grp, output_inds=outs))
+                namer = tm.Namer()
+                lit = lambda ts: "[" + "; ".join(f"arr_tensor {tm.nlist([namer(i) for i in tn.tensor_map[t].inds])} [] []" for t in ts) + "]"
+                g_l, o_l = lit(grp), lit([t for t in tids if t not in grp])
+                outs_l, kept_l = tm.nlist([namer(i) for i in outs]), tm.nlist([namer(i) for i in kept])
+                model = (f"(filter (fun i => negb (has i (group_summed G {g_l} {o_l} {outs_l}))) "
+                         f"(nodup Nat.eq_dec (flat_map (tinds G) {g_l})))")
+                col.add({"net": netid, "pass": "compute_contracted_inds", "args": {"group": grp}, "outs": list(outs), "explicit_outs": explicit,
+                         "exponent": e0, "tensors": net_dump(tm.qtn_tensors(tn)), "impl_kept": kept},
+                        f"(forallb (fun i => has i {kept_l}) {model}) && (forallb (fun i => has i {model}) {kept_l})")
+                ctx.count((netid, "compute_contracted_inds", tuple(grp)), len(grp) > 1)
+                ctx.bump("pass:compute_contracted_inds")
+            except Exception as e:
+                ctx.violation("compute_contracted_inds:raised:" + type(e).__name__, f"compute_contracted_inds raised {e}",
+                              {"net": netid, "group": grp, "outs": list(outs), "tensors": net_dump(tm.qtn_tensors(tn))})
         # exponent redistribution with an integer quotient
         if nt >= 1:
             new = e0 - nt * rng.choice([0, 1, 2, -1])
@@ -614,11 +640,12 @@ def exponent_stream(ctx, col):
     rng = ctx.rng
     for n in range(ctx.n(25, 250)):
         dims = {i: rng.choice([1, 2, 2, 3]) for i in POOL}
-        nt = rng.randint(1, 4)
+        big = rng.random() < 0.3  # more tensors than the default spread (8) of TensorNetwork.multiply
+        nt = rng.randint(9, 11) if big else rng.randint(1, 4)
         common = rng.random() < 0.5
         ts, values = [], []
         for k in range(nt):
-            r = rng.choice([1, 2, 2, 3])
+            r = rng.choice([1, 1, 2]) if big else rng.choice([1, 2, 2, 3])
             inds = tuple(rng.sample(POOL[:5], r))
             arr, nrm = pyth_array(rng, [dims[i] for i in inds], norm=3 if common else None)
             if arr is None:
@@ -639,6 +666,20 @@ def exponent_stream(ctx, col):
         ctx.bump("net:exponent_stream")
         vals = [v if rng.random() < 0.8 else None for v in values]
         run_pass(ctx, col, netid, tn, outs, "strip_exponent", {"values": vals}, explicit)
+        if big:
+            ctx.bump("net:exponent_stream:more_than_8_tensors")
+        # distribute_exponent: EVERY tensor is multiplied by the same exact power of ten (Rw_distribute: map (scale r) ts)
+        kq = rng.choice([1, 2, -1])
+        after = run_pass(ctx, col, netid, tn, outs, "distribute_exponent", {"new": float(e0 - nt * kq)}, explicit)
+        if after is not None:
+            x = 10.0 ** kq
+            bad = [i for i, (a, b) in enumerate(zip(tn.tensors, after.tensors))
+                   if not np.array_equal(np.asarray(b.data), np.asarray(a.data) * x)]
+            if bad or float(np.real(after.exponent)) != float(e0 - nt * kq):
+                ctx.violation("distribute_exponent:form", f"distribute_exponent({e0 - nt * kq}) on {nt} tensors with exponent {e0}: tensors {bad} were "
+                              f"not multiplied by exactly 10^{kq}",
+                              {"net": netid, "pass": "distribute_exponent", "args": {"new": float(e0 - nt * kq)}, "outs": list(outs),
+                               "explicit_outs": explicit, "exponent": e0, "tensors": net_dump(tm.qtn_tensors(tn))})
         if common:
             after = run_pass(ctx, col, netid, tn, outs, "equalize_norms[value]", {"value": 3.0}, explicit)
             if after is not None:
@@ -856,7 +897,12 @@ def qclist(arr):
 class spy_multiply:
     """records, while a pass runs, the two call-site conditions behind the known findings:
     zero_spread  - TensorNetwork.multiply(x) with x exactly 0 spread over >= 2 tensors (x / abs(x) = 0 / 0);
-    flip_repeated - Tensor.flip(ind) on a tensor that carries `ind` more than once (only the first axis is reversed)."""
+    flip_repeated - Tensor.flip(ind) on a tensor that carries `ind` more than once (only the first axis is reversed);
+    and the trace of compute_contracted_inds: every planned group contraction must keep the declared outer labels
+    carried by the group (side condition of C04_group_contract_sound: a summed label is never an outer label)."""
+
+    def __init__(self, outs=None):
+        self.outs = None if outs is None else set(outs)
 
     def __enter__(self):
         import functools
@@ -869,7 +915,23 @@ class spy_multiply:
         self.real_flip = self.tcls.flip
         self.zero_spread = False
         self.flip_repeated = False
+        self.real_cci = self.cls.compute_contracted_inds
+        self.summed_outputs = []  # (tids, labels): a group contraction was planned that sums a declared outer label
         spy = self
+
+        def compute_contracted_inds(tn, *tids, output_inds=None):
+            res = spy.real_cci(tn, *tids, output_inds=output_inds)
+            try:
+                if spy.outs is not None:
+                    on_group = set()
+                    for tid in tids:
+                        on_group.update(tn.tensor_map[tid].inds)
+                    lost = sorted(i for i in on_group if i in spy.outs and i not in res)
+                    if lost:
+                        spy.summed_outputs.append((list(tids), lost))
+            except Exception:
+                pass
+            return res
 
         def multiply(tn, x, inplace=False, spread_over=8):
             try:
@@ -887,6 +949,7 @@ class spy_multiply:
 
         self.cls.multiply = multiply
         self.cls.multiply_ = functools.partialmethod(multiply, inplace=True)
+        self.cls.compute_contracted_inds = compute_contracted_inds
         self.tcls.flip = flip
         self.tcls.flip_ = functools.partialmethod(flip, inplace=True)
         return self
@@ -896,6 +959,7 @@ class spy_multiply:
 
         self.cls.multiply = self.real
         self.cls.multiply_ = functools.partialmethod(self.real, inplace=True)
+        self.cls.compute_contracted_inds = self.real_cci
         self.tcls.flip = self.real_flip
         self.tcls.flip_ = functools.partialmethod(self.real_flip, inplace=True)
         return False
@@ -1068,19 +1132,21 @@ def o_split_simplify(tn, a):
 
 
 def o_pair_simplify(tn, a):
-    return _maybe_inplace(tn, a, "pair_simplify", cutoff=1e-12, equalize_norms=a["eq"], check_zero=a.get("check_zero", False))
+    return _maybe_inplace(tn, a, "pair_simplify", cutoff=1e-12, equalize_norms=a["eq"], check_zero=a.get("check_zero", False),
+                          output_inds=a.get("outs"))
 
 
 def o_loop_simplify(tn, a):
-    return _maybe_inplace(tn, a, "loop_simplify", cutoff=1e-12, equalize_norms=a["eq"], check_zero=a.get("check_zero", False))
+    return _maybe_inplace(tn, a, "loop_simplify", cutoff=1e-12, equalize_norms=a["eq"], check_zero=a.get("check_zero", False),
+                          output_inds=a.get("outs"))
 
 
 def o_full_simplify(tn, a):
-    return tn.full_simplify(a["seq"], equalize_norms=a["eq"], check_zero=a.get("check_zero", "auto"))
+    return tn.full_simplify(a["seq"], equalize_norms=a["eq"], check_zero=a.get("check_zero", "auto"), output_inds=a.get("outs"))
 
 
 def o_rank_simplify(tn, a):
-    return tn.rank_simplify(equalize_norms=a["eq"], check_zero=a.get("check_zero", False))
+    return tn.rank_simplify(equalize_norms=a["eq"], check_zero=a.get("check_zero", False), output_inds=a.get("outs"))
 
 
 def o_equalize_norms(tn, a):
@@ -1137,7 +1203,7 @@ def oracle_pass(ctx, netid, tn0, name, args, outs, is_tree, zero=False, mult_fac
     desc = {"net": netid, "pass": name, "args": args, "outs": list(outs), "exponent": e0, "stream": "oracle",
             "tensors": net_dump(before)}
     ctx.bump("oracle:" + name + (":" + args["seq"] if "seq" in args else ""))
-    with spy_multiply() as spy:
+    with spy_multiply(outs=args.get("outs")) as spy:
         try:
             with warnings.catch_warnings():
                 warnings.simplefilter("ignore")
@@ -1152,6 +1218,10 @@ def oracle_pass(ctx, netid, tn0, name, args, outs, is_tree, zero=False, mult_fac
                               f"{name} {args} raised {type(e).__name__}: {str(e)[:120]} on a valid network", desc)
             return None
     ctx.count((netid, name, json.dumps(args, default=str)), changed(tn0, after))
+    if spy.summed_outputs:
+        tids, lost = spy.summed_outputs[0]
+        ctx.violation(f"{key}:trace:outer_label_summed", f"{name} {args} planned the contraction of tensors {tids} summing the declared outer "
+                      f"label(s) {lost} (compute_contracted_inds did not receive / honour output_inds={list(outs)})", desc)
     try:
         e1 = float(np.real(after.exponent))
         ok, msg = np_same(before, e0, tm.qtn_tensors(after), e1, outs, mult_factor)
@@ -1169,6 +1239,13 @@ def oracle_pass(ctx, netid, tn0, name, args, outs, is_tree, zero=False, mult_fac
     missing = [o for o in outs if o not in after.ind_map or after.ind_size(o) != tn0.ind_size(o)]
     if missing:
         ctx.violation(f"{key}:outer_labels", f"{name} lost or resized outer labels {missing}", desc)
+    # promised form: equalize_norms=True ends with equalize_norms(): all tensor norms equal
+    if args.get("eq") is True and name.split("[")[0] in ("gauge_all_canonize", "full_simplify") and not zero and after.num_tensors:
+        norms = [float(np.linalg.norm(np.asarray(t.data))) for t in after.tensors]
+        ctx.bump("oracle:equal_norms_checked")
+        if max(norms) - min(norms) > 1e-8 * max(1.0, max(norms)):
+            ctx.violation(f"{key}:equal_norms", f"{name} {args} (equalize_norms=True) left unequal tensor norms: min {min(norms):.6g}, max {max(norms):.6g} "
+                          f"on {after.num_tensors} tensors", desc)
     # promised form 1: every tensor flagged isometric really is
     for t in after.tensors:
         if t.left_inds is not None:
@@ -1295,6 +1372,131 @@ def oracle_stream(ctx):
         P("multiply", {"x": x, "spread": sp}, mult_factor=x)
 
 
+def hyper_output_loop_net(rng, nprng, cplx):
+    """a loop of 3-4 tensors with large bonds and small dangling legs (so that loop / pair simplification finds a size
+    reducing split), optionally with a tail tensor; the declared outer labels contain a BOND of the loop."""
+    import quimb.tensor as qtn
+
+    L = rng.choice([3, 3, 4])
+    D = rng.choice([3, 4, 4])
+    inds = {k: [f"l{k}", f"l{(k + 1) % L}"] for k in range(L)}
+    dims = {f"l{k}": D for k in range(L)}
+    carriers = rng.sample(range(L), 2)
+    outer = []
+    for c, k in enumerate(carriers):
+        o = f"k{c}"
+        dims[o] = 2
+        inds[k].append(o)
+        outer.append(o)
+    n = L
+    if rng.random() < 0.4:  # a tail hanging off the loop
+        k = rng.randrange(L)
+        dims["t0"], dims["k9"] = 2, 2
+        inds[k].append("t0")
+        inds[n] = ["t0", "k9"]
+        outer.append("k9")
+        n += 1
+    ts = []
+    for k in range(n):
+        rng.shuffle(inds[k])
+        shape = [dims[x] for x in inds[k]]
+        a = nprng.normal(size=shape) + (1j * nprng.normal(size=shape) if cplx else 0)
+        ts.append(qtn.Tensor(a, tuple(inds[k]), tags=[f"T{k}"]))
+    tn = qtn.TensorNetwork(ts)
+    # the bond between the two tensors carrying the dangling legs if they are adjacent, else any loop bond
+    a_, b_ = sorted(carriers)
+    if b_ - a_ == 1:
+        hb = f"l{b_}"
+    elif a_ == 0 and b_ == L - 1:
+        hb = "l0"
+    else:
+        hb = f"l{rng.randrange(L)}"
+    if rng.random() < 0.25:
+        hb = f"l{rng.randrange(L)}"
+    return tn, tuple(outer) + (hb,)
+
+
+def many_tensor_net(rng, nprng, cplx):
+    """ring or chain of 9-13 small tensors with wildly different norms (more tensors than multiply's default spread of 8)."""
+    import quimb.tensor as qtn
+
+    n = rng.randint(9, 13)
+    ring = rng.random() < 0.5
+    ts = []
+    for k in range(n):
+        inds = []
+        if ring or k > 0:
+            inds.append(f"b{k}")
+        if ring or k < n - 1:
+            inds.append(f"b{(k + 1) % n}")
+        if k % 2 == 0 or rng.random() < 0.3:
+            inds.append(f"k{k}")
+        shape = [2] * len(inds)
+        a = nprng.normal(size=shape) + (1j * nprng.normal(size=shape) if cplx else 0)
+        ts.append(qtn.Tensor(a * 10.0 ** rng.randint(-3, 3), tuple(inds), tags=[f"T{k}"]))
+    return qtn.TensorNetwork(ts)
+
+
+def scaled_equally(tn0, after, tol=1e-9):
+    """distribute_exponent promises the SAME factor on every tensor: returns (ok, ratios)."""
+    ratios = []
+    for a, b in zip(tn0.tensors, after.tensors):
+        na, nb = float(np.linalg.norm(np.asarray(a.data))), float(np.linalg.norm(np.asarray(b.data)))
+        if na > 0:
+            ratios.append(nb / na)
+    if not ratios:
+        return True, ratios
+    return (max(ratios) - min(ratios)) <= tol * max(1.0, max(ratios)), ratios
+
+
+def special_oracle_nets(ctx):
+    rng = ctx.rng
+    nprng = np.random.default_rng(ctx.seed + 4042)
+    # (1) an outer label that is also a bond inside a loop
+    for n in range(ctx.n(8, 80)):
+        cplx = rng.random() < 0.4
+        tn, outs = hyper_output_loop_net(rng, nprng, cplx)
+        netid = f"h{n}"
+        ctx.bump("onet:outer_label_is_loop_bond")
+        o = list(outs)
+        for inplace in (False, True):
+            oracle_pass(ctx, netid, tn, "loop_simplify", {"eq": False, "inplace": inplace, "outs": o}, outs, False)
+            oracle_pass(ctx, netid, tn, "pair_simplify", {"eq": False, "inplace": inplace, "outs": o}, outs, False)
+        oracle_pass(ctx, netid, tn, "rank_simplify", {"eq": False, "outs": o}, outs, False)
+        for seq in ["L", "LR", "RL", "P", "RPL", "ADCRSLP"]:
+            oracle_pass(ctx, netid, tn, "full_simplify", {"seq": seq, "eq": rng.choice([False, False, True]), "outs": o}, outs, False)
+    # (2) more tensors than the default spread of TensorNetwork.multiply
+    for n in range(ctx.n(6, 60)):
+        cplx = rng.random() < 0.4
+        tn = many_tensor_net(rng, nprng, cplx)
+        if rng.random() < 0.5:
+            tn.exponent = float(rng.choice([3, -4, 7, 1.5]))
+        outs = tuple(tn.outer_inds())
+        netid = f"m{n}"
+        ctx.bump("onet:more_than_8_tensors")
+        after = oracle_pass(ctx, netid, tn, "equalize_norms", {"value": None}, outs, False)
+        check_norms(ctx, netid, tn, after, None)
+        v = rng.choice([1.0, 2.0])
+        tn2 = oracle_pass(ctx, netid, tn, "equalize_norms", {"value": v}, outs, False)
+        check_norms(ctx, netid, tn, tn2, v)
+        if tn2 is not None:
+            # an exponent left by an earlier pass must be redistributed evenly too
+            after = oracle_pass(ctx, netid + "s", tn2, "equalize_norms", {"value": None}, outs, False)
+            check_norms(ctx, netid + "s", tn2, after, None)
+        new = float(rng.choice([0, 2, -3]))
+        after = oracle_pass(ctx, netid, tn, "distribute_exponent", {"new": new}, outs, False)
+        if after is not None:
+            ok, ratios = scaled_equally(tn, after)
+            ctx.bump("oracle:distribute_equal_factor_checked")
+            if not ok:
+                ctx.violation("distribute_exponent:form", f"distribute_exponent({new}) on {tn.num_tensors} tensors did not scale every tensor by the "
+                              f"same factor: factors range {min(ratios):.6g} .. {max(ratios):.6g}",
+                              {"net": netid, "pass": "distribute_exponent", "args": {"new": new}, "stream": "oracle", "outs": list(outs),
+                               "exponent": float(np.real(tn.exponent)), "tensors": net_dump(tm.qtn_tensors(tn))})
+        oracle_pass(ctx, netid, tn, "gauge_all_canonize", {"its": 1, "absorb": "both", "eq": True}, outs, False)
+        oracle_pass(ctx, netid, tn, "full_simplify", {"seq": rng.choice(["A", "C", "AC"]), "eq": True, "check_zero": True}, outs, False)
+
+
 def check_isometry_towards(ctx, netid, tn0, after, tiso, tother, args):
     """promised form of canonize_between: `tiso` is flagged and is an isometry from all its labels except the bond(s) to `tother`."""
     import quimb.tensor as qtn
@@ -1350,9 +1552,12 @@ def check_norms(ctx, netid, tn0, after, value):
         return
     norms = [float(np.linalg.norm(np.asarray(t.data))) for t in after.tensors]
     target = norms[0] if value is None else value
+    ctx.bump("oracle:equal_norms_checked")
     if any(abs(x - target) > 1e-8 * max(1.0, abs(target)) for x in norms):
-        ctx.violation("equalize_norms:form", f"equalize_norms(value={value}) left tensor norms {norms}",
-                      {"net": netid, "pass": "equalize_norms", "value": value, "tensors": net_dump(tm.qtn_tensors(tn0))})
+        ctx.violation("equalize_norms:form", f"equalize_norms(value={value}) on {after.num_tensors} tensors left tensor norms "
+                      f"min {min(norms):.6g} max {max(norms):.6g}",
+                      {"net": netid, "pass": "equalize_norms", "args": {"value": value}, "stream": "oracle", "outs": list(tn0.outer_inds()),
+                       "exponent": float(np.real(tn0.exponent)), "tensors": net_dump(tm.qtn_tensors(tn0))})
 
 
 def check_canonical_region(ctx, netid, tn0, after, region):
@@ -1635,6 +1840,8 @@ def corpus_stream(ctx, col):
             sizes0 = pair_bond_sizes(tn)
             after = oracle_pass(ctx, "corpus:" + name, tn, r["pass"], r["args"], outs, False,
                                 mult_factor=r["args"].get("x", 1) if r["pass"] == "multiply" else 1)
+            if r.get("check") == "norms":
+                check_norms(ctx, "corpus:" + name, tn, after, r["args"].get("value"))
             if r.get("check") == "bonds":
                 check_bonds(ctx, r["pass"], "corpus:" + name, tn, after, sizes0, f":reduced={r['args'].get('reduced')}", r["args"])
         else:
@@ -1646,7 +1853,7 @@ def correspondence(ctx):
     corpus_stream(ctx, col)
     integer_stream(ctx, col)
     exponent_stream(ctx, col)
-    failed, errors = robust_coq_cases(ctx, "passes", tm.HEADER, col.cases, 180)
+    failed, errors = robust_coq_cases(ctx, "passes", tm.HEADER + "From QV Require Import C04.Rules.\n", col.cases, 180)
     for path, err in errors:
         ctx.broken_obligation("correspondence:" + path.split("/")[-1], err)
     seen = set()
@@ -1687,7 +1894,7 @@ def run(ctx):
     t = time.time()
     ctx.check_props(["C04/Model.vo", "C04/Rules.vo", "C04/Proofs.vo", "C04/Finders.vo", "C04/Props.v"])
     walls["props"] = round(time.time() - t, 1)
-    for fn in (finder_stream, correspondence, tolerance_pass_stream, gauged_stream, oracle_stream):
+    for fn in (finder_stream, correspondence, tolerance_pass_stream, gauged_stream, oracle_stream, special_oracle_nets):
         t = time.time()
         ctx.stage(fn)
         walls[fn.__name__] = round(time.time() - t, 1)
